@@ -746,4 +746,110 @@ theorem C05_transform_unit_switch (s : State) (b : Bool) (m : List Rat) (hd : s.
 example : ([1, 91, 90, 89, 1] : List Rat).length ≤ 9 ∧ ([1, 91, 90, 89, 1] : List Rat).any (fun x => decide (x ≠ 0)) = true := by
   decide
 
+/-! ## histories: edits through the setters and through the arrays the getters hand out, between writes -/
+
+open MontePyVerif.TransformWrite in
+/-- the well-formedness the setters keep: three displacement entries, at most nine matrix entries -/
+def TrWF (s : State) : Prop := s.disp.length = 3 ∧ s.rot.length ≤ 9
+
+open MontePyVerif.TransformWrite in
+theorem applyEdit_wf (s : State) (e : Edit) (h : TrWF s) : TrWF (applyEdit s e) := by
+  obtain ⟨hd, hr⟩ := h
+  cases e with
+  | setDegrees b => exact ⟨hd, hr⟩
+  | setRotation m =>
+    show TrWF (if 5 ≤ m.length ∧ m.length ≤ 9 then { s with rot := m } else s)
+    by_cases hm : 5 ≤ m.length ∧ m.length ≤ 9
+    · rw [if_pos hm]; exact ⟨hd, hm.2⟩
+    · rw [if_neg hm]; exact ⟨hd, hr⟩
+  | setDisplacement d =>
+    show TrWF (if d.length = 3 then { s with disp := d } else s)
+    by_cases hm : d.length = 3
+    · rw [if_pos hm]; exact ⟨hm, hr⟩
+    · rw [if_neg hm]; exact ⟨hd, hr⟩
+  | rotationAt k v => exact ⟨hd, by simpa [applyEdit] using hr⟩
+  | displacementAt k v => exact ⟨by simpa [applyEdit] using hd, hr⟩
+  | write ns => exact ⟨hd, hr⟩
+
+open MontePyVerif.TransformWrite in
+theorem run_wf (es : List Edit) : ∀ (s : State), TrWF s → TrWF (run s es) := by
+  induction es with
+  | nil => intro s h; exact h
+  | cons e es ih => intro s h; exact ih (applyEdit s e) (applyEdit_wf s e h)
+
+open MontePyVerif.TransformWrite in
+/-- a step sees of the state only what the transform holds; a write changes nothing of it -/
+theorem applyEdit_held (s t : State) (e : Edit) (h : held s = held t) :
+    held (applyEdit s e) = (if e.isWrite then held t else held (applyEdit t e)) := by
+  simp only [held, Prod.mk.injEq] at h
+  obtain ⟨h1, h2, h3, h4⟩ := h
+  cases e with
+  | setDegrees b => simp [applyEdit, held, Edit.isWrite, h2, h3, h4]
+  | setRotation m =>
+    simp only [applyEdit, Edit.isWrite]
+    split <;> simp [held, h1, h2, h3, h4]
+  | setDisplacement d =>
+    simp only [applyEdit, Edit.isWrite]
+    split <;> simp [held, h1, h2, h3, h4]
+  | rotationAt k v => simp [applyEdit, held, Edit.isWrite, h1, h2, h3, h4]
+  | displacementAt k v => simp [applyEdit, held, Edit.isWrite, h1, h2, h3, h4]
+  | write ns => simp [applyEdit, held, Edit.isWrite, h1, h2, h3, h4]
+
+open MontePyVerif.TransformWrite in
+/-- **writes are transparent**: after every history (setters, in-place assignments, any number of writes in between,
+    whatever nodes they leave) the transform holds what it holds after the same edits without any write -/
+theorem C05_transform_history_frame (es : List Edit) : ∀ (s t : State), held s = held t →
+    held (run s es) = held (run t (dropWrites es)) := by
+  induction es with
+  | nil => intro s t h; exact h
+  | cons e es ih =>
+    intro s t h
+    have hstep := applyEdit_held s t e h
+    cases hw : e.isWrite with
+    | true =>
+      rw [hw] at hstep
+      have : dropWrites (e :: es) = dropWrites es := by simp [dropWrites, hw]
+      rw [this]
+      exact ih (applyEdit s e) t (by simpa using hstep)
+    | false =>
+      rw [hw] at hstep
+      have : dropWrites (e :: es) = e :: dropWrites es := by simp [dropWrites, hw]
+      rw [this]
+      exact ih (applyEdit s e) (applyEdit t e) (by simpa using hstep)
+
+open MontePyVerif.TransformWrite in
+/-- **every write of every history**: whatever was assigned before it — through a setter or in the array a getter
+    handed out, before or after earlier writes — MCNP reads the entries the write produces, in the unit whose
+    modifier it writes, as exactly the numbers the transform holds at that moment -/
+theorem C05_transform_history (es : List Edit) : ∀ (s : State), TrWF s →
+    ∀ w ∈ writesOf s es, TrWF w.1 ∧ Spec.trRead w.1.inDegrees (heldNumbers w.1).length w.2 = heldNumbers w.1 := by
+  induction es with
+  | nil => intro s _ w hw; simp [writesOf] at hw
+  | cons e es ih =>
+    intro s h w hw
+    simp only [writesOf, List.mem_append] at hw
+    rcases hw with hw | hw
+    · split at hw
+      · simp only [List.mem_singleton] at hw
+        subst hw
+        exact ⟨h, C05_transform_written s h.1 h.2⟩
+      · simp at hw
+    · exact ih (applyEdit s e) (applyEdit_wf s e h) w hw
+
+open MontePyVerif.TransformWrite in
+/-- the held entry an in-place assignment names is the value assigned, whatever happened before (writes included) -/
+theorem C05_transform_inplace_held (es : List Edit) (s : State) (k : Nat) (v : Rat) (hk : k < (run s es).rot.length) :
+    (run s (es ++ [Edit.rotationAt k v])).rot[k]? = some v := by
+  simp only [run, List.foldl_append, List.foldl_cons, List.foldl_nil, applyEdit] at hk ⊢
+  rw [List.getElem?_set_self (by simpa using hk)]
+
+open MontePyVerif.TransformWrite in
+/-- non-vacuity, and the history of seeded C05f: `tr1 1 2 3 1 0 0 0 1 0 0 0 1` is written, `rotation_matrix[4] = 5`
+    is assigned in the array the getter returned, the input is written again: the second write holds 5 at entry 7 -/
+example : let s : State := ⟨false, true, [some 1, some 2, some 3, some 1, some 0, some 0, some 0, some 1, some 0, some 0, some 0, some 1],
+                            [1, 2, 3], [1, 0, 0, 0, 1, 0, 0, 0, 1]⟩
+    let es := [Edit.write s.nodes, Edit.rotationAt 4 5, Edit.write s.nodes]
+    TrWF s ∧ (writesOf s es).map (fun w => w.2[7]?) = [some (some 1), some (some 5)] := by
+  refine ⟨⟨by decide, by decide⟩, by decide⟩
+
 end MontePyVerif.C05
